@@ -109,7 +109,7 @@ def fromDecoded (E : Engine) (inner : Option (String → CV)) (s : String) (d : 
   | .int i => .int i
   | .num r => (match E.floatInt r with | some i => .int i | none => .num r)
   | .leaf _ _ => .str s
-  | .str t => scalarUnion E t
+  | .str _ => .str s  -- a quoted JSON string is text: kept with its quotes (D32)
   | .obj kvs =>
     if isFunctionObj kvs then .fn (.obj kvs)
     else match E.propertyModel (.obj kvs) with
